@@ -250,6 +250,10 @@ pub fn native_main(tier: Tier) {
         for realloc in [true, false] {
             for initial in if realloc { vec![16usize + t % 16, t] } else { vec![t] } {
                 for chunks in [1usize, 3] {
+                    // quick: the odd budgets get one chunk setting per reallocation policy
+                    if tier == Tier::Quick && t % 16 != 0 && chunks != if realloc { 1 } else { 3 } {
+                        continue;
+                    }
                     let mut cfg = SorterCfg::scaled(t, initial, realloc, chunks, false);
                     cfg.creator = 2;
                     cfgs.push(cfg);
